@@ -3,6 +3,10 @@ From Coq Require Import ExtrOcamlBasic.
 From NV Require Import Base.Witness Async.Framing Bgzf.Vpos Bgzf.Gzi Bgzf.ReaderOps Async.Reader Async.PollSeek.
 From NV Require Bgzf.Frame Bgzf.Writer Async.Writer Io.Source Io.ReadExact Io.Run Async.ReadExact.
 From NV Require Async.Lines Async.WriteAll Async.BcfFraming Async.Tab.
+From NV Require Async.CramFraming.
+From NV Require Index.Layout Index.CsiLayout Async.IndexWrite.
+From NV Require Async.IndexRead.
+From NV Require Async.FastaRecords Async.FastaRecordsSync.
 Extraction "model.ml" nv_types_witness async_obs_case sync_obs_case
   async_reader_xcase sync_reader_xcase pack vcomp vuncomp NV.Async.Writer.async_writer_case
   NV.Async.ReadExact.async_bam_case NV.Async.ReadExact.sync_bam_case
@@ -13,4 +17,11 @@ Extraction "model.ml" nv_types_witness async_obs_case sync_obs_case
   NV.Async.WriteAll.async_write_case
   NV.Async.BcfFraming.async_bcf_case NV.Async.BcfFraming.sync_bcf_case
   NV.Async.Tab.async_sam_view_case NV.Async.Tab.sync_sam_view_case
-  NV.Async.Tab.async_vcf_view_case NV.Async.Tab.sync_vcf_view_case.
+  NV.Async.Tab.async_vcf_view_case NV.Async.Tab.sync_vcf_view_case
+  NV.Async.CramFraming.async_cram_case NV.Async.CramFraming.sync_cram_case
+  NV.Async.IndexWrite.idxw_gzi_case NV.Async.IndexWrite.idxw_bai_case
+  NV.Async.IndexWrite.idxw_csi_case NV.Async.IndexWrite.idxw_tbi_case
+  NV.Async.IndexRead.async_gzi_case NV.Async.IndexRead.sync_gzi_case
+  NV.Async.IndexRead.async_bai_case NV.Async.IndexRead.sync_bai_case
+  NV.Async.FastaRecords.async_fasta_records_case NV.Async.FastaRecords.sync_fasta_records_case
+  NV.Async.FastaRecords.closed_fasta_records_case NV.Async.FastaRecordsSync.sync_fasta_records_run.
